@@ -1,3 +1,4 @@
+import Deltio.Lemmas.SysInv
 import Deltio.Model.System
 import Deltio.Props.C17
 /-
@@ -122,5 +123,49 @@ example :
     (Sys.init.rpc (.createTopic raw)).2 = .topic raw ∧
     (((Sys.init.rpc (.createTopic raw)).1).rpc (.createTopic raw)).2 = .err .alreadyExists ∧
     (Sys.init.rpc (.getTopic raw)).2 = .err .notFound := by decide
+
+
+/-! ### Over all histories (invariant `SysInv`, Deltio/Lemmas/SysInv.lean) -/
+
+/-- After ANY history of requests, stream operations and time advances, topic names and
+    subscription names are unique keys, and internal ids are unique and increase with creation:
+    the two namespaces are maps. -/
+theorem C10_names_are_keys (ops : List SysOp) :
+    let sys := Sys.init.execOps ops
+    (sys.topics.map (·.name)).Nodup ∧ (sys.subs.map (·.name)).Nodup ∧
+    (sys.topics.map (·.tid)).Pairwise (· < ·) ∧ (sys.subs.map (·.sid)).Pairwise (· < ·) := by
+  intro sys
+  have h := SysInv_all ops
+  have e1 : sys.tsh.map (·.name) = sys.topics.map (·.name) := by simp [Sys.tsh, List.map_map, Function.comp]
+  have e2 : sys.ssh.map (·.name) = sys.subs.map (·.name) := by simp [Sys.ssh, List.map_map, Function.comp]
+  have e3 : sys.tsh.map (·.tid) = sys.topics.map (·.tid) := by simp [Sys.tsh, List.map_map, Function.comp]
+  have e4 : sys.ssh.map (·.sid) = sys.subs.map (·.sid) := by simp [Sys.ssh, List.map_map, Function.comp]
+  exact ⟨e1 ▸ h.tnames, e2 ▸ h.snames, e3 ▸ h.tids, e4 ▸ h.sids⟩
+
+/-- Hence, in every reachable state, DeleteTopic of a present name makes it absent (no hypothesis). -/
+theorem C10_delete_topic_all (ops : List SysOp) (raw : Bytes) (n : Name) (t : TopicEnt) (hp : parseTopicName raw = some n)
+    (hf : (Sys.init.execOps ops).findTopic n = some t) :
+    ((Sys.init.execOps ops).rpc (.deleteTopic raw)).1.findTopic n = none := by
+  have hk := (C10_names_are_keys ops).1
+  have hu : ∀ t' ∈ (Sys.init.execOps ops).topics, t'.name = n → t'.tid = t.tid := by
+    intro t' ht' hn
+    have ht : t ∈ (Sys.init.execOps ops).topics := List.mem_of_find?_eq_some hf
+    have htn : t.name = n := by have := List.find?_some hf; simpa using this
+    -- injectivity of `name` on a list with distinct names
+    have inj : ∀ (l : List TopicEnt), (l.map (·.name)).Nodup → ∀ a ∈ l, ∀ b ∈ l, a.name = b.name → a = b := by
+      intro l
+      induction l with
+      | nil => intro _ a ha; simp at ha
+      | cons c cs ih =>
+        intro hnd a ha b hb hab
+        simp only [List.map_cons, List.nodup_cons] at hnd
+        simp only [List.mem_cons] at ha hb
+        rcases ha with rfl | ha <;> rcases hb with rfl | hb
+        · rfl
+        · exact absurd (by rw [hab]; exact List.mem_map_of_mem hb) hnd.1
+        · exact absurd (by rw [← hab]; exact List.mem_map_of_mem ha) hnd.1
+        · exact ih hnd.2 a ha b hb hab
+    rw [inj _ hk t' ht' t ht (by rw [hn, htn])]
+  exact (C10_delete_topic _ raw n t hp hf hu).2.1
 
 end Deltio
